@@ -359,7 +359,7 @@ ZERO_HASH_PATHS = ["exd/kjmclhy1m.exh", "chara/equipment/evugyy1hl2/cefwfcgguk.m
 assert sq.hash2(ZERO_HASH_PATHS[0]) == 0 and sq.hash1(ZERO_HASH_PATHS[1]) in ((0, 0), 0), (sq.hash2(ZERO_HASH_PATHS[0]), sq.hash1(ZERO_HASH_PATHS[1]))
 
 
-def small_installation(root, cat, kind, paths, payloads):
+def small_installation(root, cat, kind, paths, payloads, folders=False):
     rd = os.path.join(root, "sqpack", "ffxiv")
     os.makedirs(rd, exist_ok=True)
     db = sq.DatBuilder(0)
@@ -369,7 +369,40 @@ def small_installation(root, cat, kind, paths, payloads):
         off = db.add(entry)
         ents.append((sq.hash1(p) if kind == 1 else sq.hash2(p), 0, off, False))
     open(os.path.join(rd, sq.dat_filename(sq.CATEGORIES[cat], 0, 0, "win32", 0)), "wb").write(db.bytes())
-    open(os.path.join(rd, sq.index_filename(sq.CATEGORIES[cat], 0, 0, "win32", kind)), "wb").write(sq.index_file(kind, ents, 0, ndats=1))
+    open(os.path.join(rd, sq.index_filename(sq.CATEGORIES[cat], 0, 0, "win32", kind)), "wb").write(sq.index_file(kind, ents, 0, ndats=1, folders=folders))
+
+
+def nested_folders(ctx, rng):
+    """folders that are prefixes of one another (F, F/sub, F/sub/deep, Fx), one file name in all of them, asked for one right after the
+    other in every order on one handle and across handles; and index files whose folder table is sloppy (records missing, ranges too
+    short) while their entry table is complete - the property is stated on the entries"""
+    for kind in (1, 2):
+        cat = rng.choice(["bg", "chara", "vfx"])
+        F = "%s/%s" % (cat, seg(rng, 3, 6).lower())
+        nm = seg(rng, 3, 8).lower() + ".dat"
+        stored = [F + "/" + nm, F + "/sub/" + nm, F + "/sub/deep/" + seg(rng, 3, 6).lower() + ".tex", F + "x/" + nm, F + "/sub/other.mdl"]
+        absent = [F + "/sub/deep/" + nm, F + "/su/" + nm, F + "/" + "other.mdl", cat + "/" + nm]
+        for ftab in ([False, True, "sloppy"] if kind == 1 else [False]):
+            root = ctx.path("game-nested%d" % kind)
+            try:
+                fo = ftab
+                if ftab == "sloppy":
+                    how = rng.choice(["drop", "short", "empty"])
+                    fo = (lambda recs, how=how: [] if how == "empty" else [r_ for i_, r_ in enumerate(recs) if i_ % 2] if how == "drop" else [(h_, o_, max(0, z_ - 16)) for h_, o_, z_ in recs])
+                small_installation(root, cat, kind, stored, [("LOC nested %d" % i).encode() for i in range(len(stored))], folders=fo)
+                r = ctx.call("gd.open", "win32", root)
+                if not r.ok:
+                    continue
+                order = stored + absent
+                seqs = [order, order[::-1]] + [rng.sample(order, len(order)) for _ in range(3)]
+                extra = dict(index_kind=kind, folder_table=str(ftab))
+                for sq_ in seqs:
+                    for p in sq_:
+                        want = p in stored
+                        ask(ctx, r.value["handle"], p, want, ("LOC nested %d" % stored.index(p)).encode() if want else b"", "nested-folders:table-%s" % ftab, root, extra)
+                ctx.call("drop", r.value["handle"])
+            finally:
+                shutil.rmtree(root, ignore_errors=True)
 
 
 def ask(ctx, hd, path, want, payload, cls, root, extra):
@@ -475,6 +508,7 @@ def shard(ctx):
     if ctx.index % 4 == 0 and ctx.variant != "asan":
         colliding_paths(ctx, rng)
     zero_hashes_and_reopen(ctx, rng)
+    nested_folders(ctx, rng)
     for i in range(P["n"]):
         root = ctx.path("game%d" % i)
         shape = "normal"
